@@ -20,7 +20,7 @@ LEVEL = 'exploration'
 BUDGET = {'quick': 2000, 'thorough': 4000}
 RULE = ("Case = 1-5 TimeDate / TimeSpan blocks in local (UTC+offset) and UTC mode with generated times "
         "(0-3 ranges: wrapping, equal endpoints, microsecond endpoints, on and off the hour), dates (incl. Feb 29 "
-        "and Dec 31 - Jan 1), weekdays (0-7) and spans around the start instant; start instant around Dec 31, "
+        "and Dec 31 - Jan 1), weekdays (0-7) and spans around the start instant (also reversed and zero-length ones, which are never active); start instant around Dec 31, "
         "Feb 28/29 or mid-year at a boundary minus {0, 1 us ... 5 ms, seconds, an hour}; clock-read latency "
         "1-50 us, wake-up latency 0-2 ms, blocking work of 0-50 ms after a (re)configuration; history of 3-30 "
         "steps: sleeps up to 11 h, waits until just after a boundary, 'reconfig' events placed 0-3 ms before/after a "
@@ -149,6 +149,13 @@ def ts_cfg(draw, start_us):
     for _ in range(draw(st.integers(0, 3))):
         a = start_us + draw(off) * 10 ** 6 + draw(st.sampled_from([0, 0, 500_000, 1]))
         b = start_us + draw(off) * 10 ** 6 + draw(st.sampled_from([0, 0, 500_000, 1]))
+        shape = draw(st.integers(0, 5))
+        if shape == 0:
+            spans.append([max(a, b), min(a, b)])    # reversed or zero-length: date-time ranges never wrap
+            continue
+        if shape == 1:
+            spans.append([a, a])
+            continue
         if a == b:
             b += 3600 * 10 ** 6
         spans.append([min(a, b), max(a, b)])
@@ -192,7 +199,7 @@ def cases(draw):
         else:
             new = {'kind': 'ts', 'spans': None, 'rel': [
                 [draw(st.sampled_from([-7200, -1, 0, 1, 600])), draw(st.sampled_from([500, 1000, 3_000_000])),
-                 draw(st.sampled_from([3600, 86400, 7200 + 1, 3]))]
+                 draw(st.sampled_from([3600, 86400, 7200 + 1, 3, 0, -3600]))]
                 for _ in range(draw(st.integers(0, 2)))]}
         link = {'src': src, 'dst': dst, 'cfg': new}
     steps = []
@@ -210,7 +217,7 @@ def cases(draw):
             else:
                 new = {'kind': 'ts', 'spans': None, 'rel': [
                     [draw(st.sampled_from([-7200, -1, 0, 0, 1, 600])), draw(st.sampled_from([500, 1000, 3_000_000])),
-                     draw(st.sampled_from([3600, 86400, 7200 + 1, 7200 + 4, 3]))]
+                     draw(st.sampled_from([3600, 86400, 7200 + 1, 7200 + 4, 3, 0, -86400]))]
                     for _ in range(draw(st.integers(0, 2)))]}
             steps.append({'op': 'reconfig', 'blk': i, 'cfg': new,
                           'place': draw(st.one_of(st.none(), st.tuples(
